@@ -375,10 +375,44 @@ def run_unit(u, tier):
         if ur["obligations"] == 0:
             ur["status"] = "undecided"
             ur["why"] = "zero obligations"
+        else:
+            vacuity_probe(u, mod, built, d, rlimit, ur)
     else:
         ur["status"] = "undecided"
         ur["why"] = "verus did not report success:\n" + stderr[-1500:]
     return ur
+
+
+PROBE = "/*VACUITY_PROBE*/"
+
+
+def vacuity_probe(u, mod, built, d, rlimit, ur):
+    """Guard against vacuous success: every function under contract gets `assert(false)` as its first statement and
+    the unit is verified again; each of these assertions MUST fail.  One that is proved means the function's
+    precondition is contradictory (or its body is unreachable) and its verified postconditions say nothing."""
+    n = built.text.count(PROBE)
+    ur["vacuity_probe"] = {"functions": n, "failed_as_expected": 0}
+    if n == 0:
+        return
+    text = built.text.replace(PROBE, "assert(false); // [VACUITY]")
+    path = os.path.join(d, u.name + "_probe.rs")
+    with open(path, "w") as f:
+        f.write(text)
+    cmd = ["verus", path, "--output-json", "--time", "--multiple-errors", "2", "--rlimit", str(rlimit)]
+    rc, out, secs, to = run_split(cmd, timeout=getattr(mod, "TIMEOUT", 900))
+    if to:
+        raise Undecided("vacuity probe: verus timed out")
+    failures, hard = parse_verus_errors(out[1], text)
+    probe_lines = {i for i, line in enumerate(text.splitlines(), 1) if "// [VACUITY]" in line}
+    hit = {f["line"] for f in failures if f["label"] == "VACUITY"}
+    ur["vacuity_probe"]["failed_as_expected"] = len(hit & probe_lines)
+    ur["vacuity_probe"]["wall_s"] = round(secs, 2)
+    missing = sorted(probe_lines - hit)
+    if missing:
+        fns = sorted({fn_at_line(text, ln) for ln in missing})
+        ur["status"] = "undecided"
+        ur["why"] = ("vacuity probe: `assert(false)` at the start of " + ", ".join(fns) + " did not fail - the precondition is "
+                     "contradictory or the probe run was rejected:\n" + ("\n".join(hard)[:1500] or out[1][-1500:]))
 
 
 def run_split(cmd, timeout):
